@@ -1,0 +1,75 @@
+//! Instrumentation for the external verification harness. Only compiled with the
+//! cargo feature `verif-hooks`; the library behaves identically without it.
+//!
+//! All state is thread-local, so concurrently running operations do not interfere.
+use std::cell::{Cell, RefCell};
+
+thread_local! {
+    static COUNT: Cell<u64> = Cell::new(0);
+    static BUDGET: Cell<u64> = Cell::new(u64::MAX);
+    static LAST: RefCell<Vec<(f64, f64)>> = RefCell::new(Vec::new());
+    static BREAK_LEN: Cell<Option<usize>> = Cell::new(None);
+    static MAX_LEN: Cell<usize> = Cell::new(0);
+}
+
+/// Number of most recent event points that are remembered.
+pub const LAST_POINTS: usize = 16;
+
+/// Resets all counters and sets the maximal number of sweep events that may be processed
+/// by this thread before `subdivide` panics with `VERIF_EVENT_BUDGET_EXCEEDED`.
+pub fn reset(budget: u64) {
+    COUNT.with(|c| c.set(0));
+    BUDGET.with(|b| b.set(budget));
+    LAST.with(|l| l.borrow_mut().clear());
+    BREAK_LEN.with(|b| b.set(None));
+    MAX_LEN.with(|m| m.set(0));
+}
+
+/// Sweep events popped from the queue since the last `reset`.
+pub fn count() -> u64 {
+    COUNT.with(|c| c.get())
+}
+
+/// The points of the last (up to) `LAST_POINTS` popped events, oldest first.
+pub fn last_points() -> Vec<(f64, f64)> {
+    LAST.with(|l| l.borrow().clone())
+}
+
+/// Number of segments in the sweep line when the sweep stopped early, if it did.
+pub fn sweep_line_len_at_break() -> Option<usize> {
+    BREAK_LEN.with(|b| b.get())
+}
+
+/// Largest sweep line population seen since the last `reset`.
+pub fn max_sweep_line_len() -> usize {
+    MAX_LEN.with(|m| m.get())
+}
+
+pub(crate) fn tick(x: f64, y: f64) {
+    LAST.with(|l| {
+        let mut l = l.borrow_mut();
+        if l.len() >= LAST_POINTS {
+            l.remove(0);
+        }
+        l.push((x, y));
+    });
+    let n = COUNT.with(|c| {
+        c.set(c.get() + 1);
+        c.get()
+    });
+    if n > BUDGET.with(|b| b.get()) {
+        panic!("VERIF_EVENT_BUDGET_EXCEEDED");
+    }
+}
+
+pub(crate) fn record_len(len: usize) {
+    MAX_LEN.with(|m| {
+        if len > m.get() {
+            m.set(len)
+        }
+    });
+}
+
+pub(crate) fn record_break(len: usize) {
+    BREAK_LEN.with(|b| b.set(Some(len)));
+}
